@@ -29,7 +29,9 @@ EXPLANATION = (
     'SQL of all pending evolutions of the task); '
     'R-C08.3 also: the batch builder generates no SQL for apps without a stored signature, and the raw sequence recorded for such an app is reduced by the labels already recorded.'
     ' '
-    'R-C08.7 whether Evolver._save_project_sig writes the Evolution rows may depend only on there being evolutions to write (guards of the bulk_create call mention nothing but the parameter).')
+    'R-C08.7 whether Evolver._save_project_sig writes the Evolution rows may depend only on there being evolutions to write (guards of the bulk_create call mention nothing but the parameter).'
+    ' '
+    'R-C08.8 mark-evolution-applied checks and records the same label set (same variable, same reaching definitions, check dominates record).')
 NOT_DECIDED = (
     'Exactly-once over histories of runs (needs executing several runs '
     'against one database).')
@@ -594,7 +596,63 @@ def r7_recording_unconditional(ctx):
     ctx.floor('writes of Evolution rows in _save_project_sig', n, 1)
 
 
+def r8_mark_applied_checks_what_it_records(ctx):
+    """mark-evolution-applied refuses labels that are already recorded and
+    then records the labels.  The set it checks must be the set it records:
+    the same variable with the same reaching definitions at the query
+    (`label__in=X`) and at the creation loop.  Checking the labels as typed
+    and recording the `--all` expansion writes a second Evolution row for
+    every label that was already applied."""
+    ctx.rule('R-C08.8')
+    p = ctx.program
+    mod = None
+    for m in p.modules.values():
+        if m.relpath.endswith('management/commands/mark-evolution-applied.py'):
+            mod = m
+    if mod is None:
+        raise AnalysisError('R-C08.8: mark-evolution-applied command not '
+                            'found')
+    f = mod.classes['Command'].methods['handle']
+    g = ctx.cfg(f)
+    rd = ReachingDefs(g, f.params)
+    check = act = None
+    for node in g.nodes:
+        for c in node.calls():
+            if call_name(c) == 'filter' and kwarg(c, 'label__in') is not None \
+                    and isinstance(kwarg(c, 'label__in'), ast.Name):
+                check = (node, kwarg(c, 'label__in').id, c)
+            if call_name(c) == 'bulk_create' and c.args:
+                a = c.args[0]
+                it = None
+                if isinstance(a, (ast.GeneratorExp, ast.ListComp)):
+                    it = a.generators[0].iter
+                elif isinstance(a, ast.Name):
+                    it = a
+                if isinstance(it, ast.Name):
+                    act = (node, it.id, c)
+    if check is None or act is None:
+        raise AnalysisError('R-C08.8: the already-applied query or the '
+                            'bulk_create of mark-evolution-applied was not '
+                            'recognised')
+    ctx.counts['R-C08.8 check/record pairs'] = 1
+    dc = {(d.node.id, d.kind) for d in rd.reaching(check[0], check[1])}
+    da = {(d.node.id, d.kind) for d in rd.reaching(act[0], act[1])}
+    if check[1] == act[1] and dc == da and \
+            g.dominates(check[0], act[0]):
+        ctx.ok(f, 'the labels checked against the recorded evolutions are '
+               'the labels that get recorded', check[2])
+    else:
+        ctx.finding(f, check[2], 'the already-applied check reads %s as '
+                    'defined at %s, the rows are created from %s as defined '
+                    'at %s: labels that are recorded without having been '
+                    'checked get a second Evolution row' % (
+                        check[1], sorted(x for x, _ in dc), act[1],
+                        sorted(x for x, _ in da)),
+                    key='check-and-record-differ')
+
+
 def run(ctx):
+    r8_mark_applied_checks_what_it_records(ctx)
     r7_recording_unconditional(ctx)
     r6_no_fallback_to_task_sql(ctx)
     r1_who_may_record(ctx)
